@@ -16,6 +16,7 @@ pub fn generate2(prop: &str, tier: &str, rng: &mut Rng, w: &mut dyn Write) {
         "C17" => crate::gen3::gen_c17(tier, rng, w),
         "C15" => crate::gen3::gen_c15(tier, rng, w),
         "C16" => crate::gen3::gen_c16(tier, rng, w),
+        "C11" => crate::gen3::gen_c11(tier, rng, w),
         _ => {
             eprintln!("harness: no generator for {}", prop);
             std::process::exit(2);
